@@ -71,6 +71,11 @@ class C08(ScanCheck):
                                 for c in [sc.garbage_key(rng), sc.noncanonical_key(rng), sc.cp(ed.O), sc.cp(ed.B), sc.cp(sc.HPT),
                                           sc.cp(ed.neg(ed.decompress_strict(commit)))] + [sc.cp(t) for t in ed.torsion_points()[1:3]]:
                                     self.add_open(cases, head, enc, ecdh, c, h, "open:other-commitment")
+                                # the sender's commitment shifted by each non-trivial small-order point: a different point that
+                                # only a comparison "up to the cofactor" would accept
+                                cp0 = ed.decompress_strict(commit)
+                                for t in ed.torsion_points()[1:]:
+                                    self.add_open(cases, head, enc, ecdh, sc.cp(ed.add(cp0, t)), h, "open:commitment-plus-torsion")
                                 # the same data at another position
                                 h2 = sc.hs(Dv + sc.vi(pos + 1))
                                 self.add_open(cases, "open %s %s %s %d" % (sc.sc(v).hex(), S, K, pos + 1), enc, ecdh, commit, h2,
